@@ -131,11 +131,16 @@ func (w *c01World) pack(M int, zeroBegin bool) (*msgstream.MsgPack, []*c01In) {
 	var ins []*c01In
 	hasDropColl := false
 	for i := 0; i < n; i++ {
-		nk := len(c01Kinds)
+		// NK limits the kinds to the first NK of the list (plus DropCollection), for the deeper tiers
+		kinds := c01Kinds
+		if NK := vParam("NK", len(c01Kinds)); NK < len(c01Kinds)-1 {
+			kinds = append(append([]string{}, c01Kinds[:NK]...), "DropCollection")
+		}
+		nk := len(kinds)
 		if i > 0 || n > 1 {
 			nk-- // DropCollection only as a pack of its own
 		}
-		k := c01Kinds[vChoice("kind", nk)]
+		k := kinds[vChoice("kind", nk)]
 		ts := vU64("msg.ts")
 		vAssume(vAnd(ts >= b, ts <= e))
 		in := w.build(k, i, ts)
